@@ -1,19 +1,18 @@
 #!/bin/bash
-# Applies a seeded patch to /repo, runs every check's quick tier, reverts. Prints the properties that report.
+# Applies a seeded patch to /repo (or $VERIF_REPO), runs every check's quick tier, reverts. Prints the properties that report.
 #   usage: tools/seedcheck.sh <patch.diff>
 set -u
+# VERIF_REPO (default /repo) names the checkout the patch is applied to and the checks analyse: a scratch worktree of
+# /repo lets the seed and refactoring regressions run side by side with the registered checks, which always use /repo.
 P=$(readlink -f "$1")
+R=${VERIF_REPO:-/repo}
+export VERIF_REPO=$R
 cd /verif
-if ! git -C /repo apply "$P"; then echo "patch does not apply"; exit 2; fi
-trap 'git -C /repo checkout -- . ; git -C /repo clean -fdq -- . 2>/dev/null' EXIT
+if ! git -C $R apply "$P"; then echo "patch does not apply"; exit 2; fi
+trap 'git -C $R checkout -- . ; git -C $R clean -fdq -- . 2>/dev/null' EXIT
 export VERIF_DIR=$(mktemp -d /tmp/seedev.XXXXXX)   # evidence of these runs is scratch, not /verif/evidence
 cp /verif/known-findings.txt "$VERIF_DIR/"
-for id in $(./bin/verifcheck list); do
-  out=$(./bin/verifcheck $id quick 2>&1)
-  rc=$?
-  if [ $rc -ne 0 ]; then
-    echo "== $id rc=$rc"
-    echo "$out" | grep -E "VIOLATED|UNDECIDED|CANNOT" | cut -c1-260 | head -8
-  fi
-done
+# one load of the patched tree, then the rules of all 20 properties (same obligations as 20 separate quick runs,
+# about 4 s instead of 60; known findings are left out as in the quick tier)
+./bin/verifcheck allprops 2>&1 | cut -c1-260
 rm -rf "$VERIF_DIR"
